@@ -4,8 +4,9 @@
 (*   [id, g : [sa, ta, ho, taFirst], init : [a, b : St], events : <<ev>>, runs : <<[t, k]>>] *)
 (* ev = [t, k, e, s]: k = "set" (entity e gets state s; a change of a's value is a state     *)
 (* trigger occurrence, b is not watched), "fire" (event occurrence), "time" (time trigger    *)
-(* occurrence), "call" (the function is called directly).  Times in ms of the day; events    *)
-(* are settled one at a time, so values are unambiguous.  Observed runs carry the time and    *)
+(* occurrence), "call" (the function is called directly).  g.wb: a second @state_trigger      *)
+(* decorator watches b too.  Times in ms of the day; events are settled one at a time except   *)
+(* bursts of changes of ONE entity at one instant, so values are unambiguous.  Observed runs carry the time and    *)
 (* trigger_type.  Deviations are classified by the named flags of GuardCore.                 *)
 EXTENDS GuardCore, Sequences, FiniteSets, TLC, Json, IOUtils
 Cases == JsonDeserialize(IOEnv.CASES)
@@ -21,8 +22,8 @@ Fold(g, evs, i, hass, gs, runs) ==
     CASE ev.k = "set" ->
            IF ev.s = hass[ev.e] THEN Fold(g, evs, i + 1, hass, gs, runs)            \* identical re-set: no event
            ELSE LET h2 == [hass EXCEPT ![ev.e] = ev.s] IN
-                IF ev.e = "a" /\ ev.s.v # hass["a"].v
-                THEN LET r == GStep(g, gs, Occ("state", ev.t, h2, "a", hass["a"])) IN
+                IF (ev.e = "a" \/ g.wb) /\ ev.s.v # hass[ev.e].v
+                THEN LET r == GStep(g, gs, Occ("state", ev.t, h2, ev.e, hass[ev.e])) IN
                      Fold(g, evs, i + 1, h2, r.gs, IF r.run THEN Append(runs, [t |-> ev.t, k |-> "state"]) ELSE runs)
                 ELSE Fold(g, evs, i + 1, h2, gs, runs)
       [] ev.k = "fire" -> LET r == GStep(g, gs, Occ("event", ev.t, hass, "-", Unset)) IN
@@ -34,7 +35,7 @@ Fold(g, evs, i, hass, gs, runs) ==
       [] OTHER -> Fold(g, evs, i + 1, hass, gs, runs)
 
 Expected(c, flags) ==
-  LET g == [sa |-> c.g.sa, ta |-> c.g.ta, ho |-> c.g.ho,
+  LET g == [sa |-> c.g.sa, ta |-> c.g.ta, ho |-> c.g.ho, wb |-> c.g.wb,
             flags |-> IF c.g.taFirst THEN flags ELSE flags \ {"holdoff-from-passed-window"}]
   IN Fold(g, c.events, 1, c.init, GS0, <<>>)
 
